@@ -1567,6 +1567,8 @@ namespace bloch::runtime {
         // not initialised again when its turn comes
         if (!cls || cls->staticInitStarted)
             return;
+        // a chain of classes each initialised on demand by the previous one recurses here
+        checkStackBudget(0, 0);
         cls->staticInitStarted = true;
         // First every static field gets its default, then the declared initialisers run in textual
         // order. (One pass that skipped any slot already holding a value lost 'static int count =
@@ -2297,6 +2299,9 @@ namespace bloch::runtime {
         rethrowDestructorError();
         if (!s)
             return;
+        // statements nest inside one call too (blocks, branches, destructors run while a scope is
+        // left): the native stack is checked at every statement, not only when a call starts
+        checkStackBudget(s->line, s->column);
         auto isTruthy = [](const Value& v) {
             switch (v.type) {
                 case Value::Type::Boolean:
